@@ -53,7 +53,7 @@ def kill_group(pgid: int):
 
 
 def run_forked(func, *, workdir: Path, wall_cap: float = 120.0, sample: float = 0.5,
-               quiet_samples: int = 6, tick_allowance: int = 2):
+               quiet_samples: int = 16, tick_allowance: int = 2):
     """Returns dict(outcome=returned|raised|quiescent|inconclusive|died, ...)."""
     workdir = Path(workdir)
     res_path = workdir / f"result-{os.getpid()}-{time.monotonic_ns()}.json"
